@@ -429,6 +429,20 @@ def run_semantic(desc, ctx):
         ctx.count("list_checks")
         if got != want:
             ctx.violation("list-dates", "--list-dates printed %s, reference %s" % (got, want), {"ds": ds, "opts": opts})
+        if all(i["thresholds"] for i in ds["inputs"]):
+            o = runner.run_cli(paths + ["--list-thresholds", "--list-quantiles"])
+            lines = [l.strip() for l in runner.strip_ansi(o.stdout).split("\n") if l.strip() and not l.startswith("Warning")]
+            ctx.count("list_checks")
+            ct = sorted(set.intersection(*[set(i["thresholds"]) for i in ds["inputs"]]))
+            cq = sorted(set.intersection(*[set(i["quantiles"]) for i in ds["inputs"]]))
+            want = ["Thresholds: " + " ".join("%g" % t for t in ct), "Quantiles: " + " ".join("%g" % q for q in cq)]
+
+            def nums(line):
+                return [float(x) for x in line.split(":", 1)[1].split()] if ":" in line else None
+            if len(lines) != 2 or not lines[0].startswith("Thresholds:") or not lines[1].startswith("Quantiles:") or \
+                    not all(abs(a - b) < 1e-6 for a, b in zip(nums(lines[0]), ct)) or len(nums(lines[0])) != len(ct) or \
+                    not all(abs(a - b) < 1e-6 for a, b in zip(nums(lines[1]), cq)) or len(nums(lines[1])) != len(cq):
+                ctx.violation("list-thresholds-quantiles", "--list-thresholds --list-quantiles printed %s, documented %s" % (lines, want), {"ds": ds})
         o = runner.run_cli(paths + vutil.opts_to_argv(opts) + ["--list-locations"])
         got = [l.split() for l in runner.strip_ansi(o.stdout).split("\n") if l.strip() and not l.startswith("Warning")][1:]
         ctx.count("list_checks")
